@@ -1,4 +1,5 @@
 (* Driver for the extracted C11 model.  One case per line:
+     D .. / J ..  (cases decided on the implementation alone) -> "-"
      P <ctx> <hex s> <hex text> np=<hexrune,..|-> f=<numT><numS><isnum><ts><litok> m=<0|1>
    -> style=<P|S|D|L> kind=<P|SC|SG|D|L> emit=<hex> read=<hex|NONE> quirk=<0..4>
    Strings are UTF-8 in hex; the model works on code points. *)
@@ -42,26 +43,30 @@ let string_of_str l = encode_utf8 (List.map int_of_n l)
 let words s = List.filter (fun w -> w <> "") (String.split_on_char ' ' s)
 let after_eq w = let i = String.index w '=' in String.sub w (i + 1) (String.length w - i - 1)
 
-(* ctx -> is_key, col0, root, p, n, suffix *)
+(* ctx -> is_key, col0, root, p, n, suffix, followed *)
 let ctx_info = function
-  | "R" -> (false, true, true, 0, 2, "\n")
-  | "V" -> (false, false, false, 0, 2, "\n")
-  | "K" -> (true, true, false, 0, 2, ": 1\n")
-  | "E" -> (false, false, false, 0, 2, "\n")
-  | "NV" -> (false, false, false, 2, 4, "\n")
-  | "NK" -> (true, false, false, 2, 4, ": 1\n")
-  | "NE" -> (false, false, false, 2, 4, "\n")
+  | "R" -> (false, true, true, 0, 2, "\n", false)
+  | "V" -> (false, false, false, 0, 2, "\n", false)
+  | "K" -> (true, true, false, 0, 2, ": 1\n", true)
+  | "E" -> (false, false, false, 0, 2, "\n", false)
+  | "NV" -> (false, false, false, 2, 4, "\n", false)
+  | "NK" -> (true, false, false, 2, 4, ": 1\n", true)
+  | "NE" -> (false, false, false, 2, 4, "\n", false)
+  | "VF" -> (false, false, false, 0, 2, "\n", true)
+  | "EF" -> (false, false, false, 0, 2, "\n", true)
+  | "NVF" -> (false, false, false, 2, 4, "\n", true)
+  | "NEF" -> (false, false, false, 2, 4, "\n", true)
   | c -> failwith ("bad ctx " ^ c)
 
 let handle line =
   match words line with
   | "P" :: ctx :: hs :: ht :: np :: f :: m :: [] ->
-    let (is_key, col0, root, p, n, suffix) = ctx_info ctx in
+    let (is_key, col0, root, p, n, suffix, followed) = ctx_info ctx in
     let s = str_of_string (unhex hs) and text = str_of_string (unhex ht) in
     let np = after_eq np and f = after_eq f and m = after_eq m in
     let npl = if np = "-" then [] else List.map (fun h -> n_of_int (int_of_string ("0x" ^ h))) (String.split_on_char ',' np) in
     let bit i = f.[i] = '1' in
-    let (((st, em), rd), q) = c11_probe npl (bit 0) (bit 1) (bit 2) (bit 3) (bit 4) is_key (m = "1") col0 root
+    let (((st, em), rd), q) = c11_probe npl (bit 0) (bit 1) (bit 2) (bit 3) (bit 4) is_key (m = "1") col0 root followed
         (nat_of_int p) (nat_of_int n) (str_of_string suffix) s text in
     let kind = match int_of_n st with 0 -> "P" | 1 -> "SC" | 2 -> "SG" | 3 -> "D" | _ -> "L" in
     let style = match kind with "SC" | "SG" -> "S" | k -> k in
@@ -69,6 +74,7 @@ let handle line =
     let em = string_of_str em ^ (if kind = "L" then "" else suffix) in
     Printf.sprintf "style=%s kind=%s emit=%s read=%s quirk=%d" style kind (hex em)
       (match rd with None -> "NONE" | Some v -> hex (string_of_str v)) (int_of_n q)
+  | ("D" | "J" | "B") :: _ -> "-"
   | _ -> "BADCASE"
 
 let () =
